@@ -1,12 +1,134 @@
 /-
-  Oracle commands for C17 (stub: owns no commands yet).
+  Oracle commands for C17 (streaming / non-streaming / OpenAI-compatible responses).
+
+    run <ep> <stream 0|1> <raw 0|1> <tools 0|1> <usage 0|1> <promptLen> <end> <chunks> <parse>
+      ep     : gen | chat | oachat | oacmpl | cgen | cchat
+      end    : ok | err:<hex>                         (return value of Completion)
+      chunks : <n> {contenthex done reason pec ec}*   (what the runner hands to the callback)
+      parse  : <n> {keyhex <k> {namehex argshex}*}*   (observed values of the real parseToolCalls)
+    -> <status> <event>*            (raw HTTP view)   |   <msg>* ; <ok | err:<hex>>   (api.Client view)
 -/
+import OllamaVerif.Model.Stream
 import Oracle.Util
 namespace Oracle.C17
-open Oracle
+open OllamaVerif OllamaVerif.Stream Oracle
+
+def pChunk : TP Chunk := do
+  let content ← hex
+  let done ← nat
+  let reason ← nat
+  let pec ← nat
+  let ec ← nat
+  pure ⟨content, done != 0, reason, pec, ec⟩
+
+def pCall : TP Call := do
+  let name ← hex
+  let args ← hex
+  pure ⟨name, args, 0⟩
+
+def pEntry : TP (Bytes × List Call) := do
+  let k ← hex
+  let cs ← listOf pCall
+  pure (k, cs)
+
+def pEnd : TP End := do
+  let t ← tok
+  if t == "ok" then pure .ok
+  else match t.splitOn ":" with
+    | ["err", h] => match unhex h with
+      | some b => pure (.err b)
+      | none => failure
+    | _ => failure
+
+/-- table lookup; a key the harness did not supply yields a poison call so that L1 flags it -/
+def lookup (tbl : List (Bytes × List Call)) (s : Bytes) : List Call :=
+  match tbl.find? (·.1 == s) with
+  | some (_, cs) => cs
+  | none => [⟨[0xff], [0xff], 999⟩]
+
+def b01 (b : Bool) : String := if b then "1" else "0"
+def optHex : Option Bytes → String
+  | none => "-"
+  | some b => hexOrDash b
+
+def showInfo (m : Info) : String :=
+  s!"m{b01 m.named}:d{b01 m.done}:{hexOrDash m.reason}:{m.pec}:{m.ec}"
+
+def showCalls (cs : List Call) : String :=
+  if cs.isEmpty then "-" else joinWith "," (cs.map fun c => s!"{hexOrDash c.name}/{hexOrDash c.args}/{c.index}")
+
+def showGen (m : GenMsg) : String :=
+  let ctx := match m.ctx with | none => "-" | some n => toString n
+  s!"g:{hexOrDash m.resp}:{showInfo m.info}:{ctx}"
+
+def showChat (m : ChatMsg) : String :=
+  s!"c:{hexOrDash m.content}:{showCalls m.calls}:{showInfo m.info}"
+
+def showItem {α : Type} (f : α → String) : Item α → String
+  | .msg m => f m
+  | .err e => s!"e:{hexOrDash e}"
+
+def showUsage (u : Usage) : String := s!"{u.prompt}/{u.completion}/{u.total}"
+
+def showOa : OaEv → String
+  | .chunk c cs f => s!"k:{hexOrDash c}:{showCalls cs}:{optHex f}"
+  | .usage u => s!"u:{showUsage u}"
+  | .done => "D"
+  | .chat c cs f u => s!"K:{hexOrDash c}:{showCalls cs}:{optHex f}:{showUsage u}"
+  | .tchunk t f u => s!"t:{hexOrDash t}:{optHex f}:{match u with | none => "-" | some u => showUsage u}"
+  | .text t f u => s!"T:{hexOrDash t}:{optHex f}:{showUsage u}"
+  | .error e => s!"E:{hexOrDash e}"
+
+def line (status : Nat) (evs : List String) : String :=
+  joinWith " " (toString status :: evs)
+
+def showOnce {α : Type} (f : α → String) : Except Bytes α → String
+  | .ok m => line 200 [f m]
+  | .error e => line 500 [s!"e:{hexOrDash e}"]
+
+def oaStatus : OaEv → Nat
+  | .error _ => 500
+  | _ => 200
+
+def showClient {α : Type} (f : α → String) (v : List α × Option Bytes) : String :=
+  joinWith " " (v.1.map f ++ [";", match v.2 with | none => "ok" | some e => s!"err:{hexOrDash e}"])
+
+def onceAsItems {α : Type} : Except Bytes α → List (Item α)
+  | .ok m => [.msg m]
+  | .error e => [.err e]
 
 def handle (toks : List String) : Option String :=
   match toks with
+  | "run" :: rest =>
+    runTP (do
+      let ep ← tok
+      let stream := (← nat) != 0
+      let raw := (← nat) != 0
+      let tools := (← nat) != 0
+      let usage := (← nat) != 0
+      let pl ← nat
+      let e ← pEnd
+      let cs ← listOf pChunk
+      let tbl ← listOf pEntry
+      let parse := lookup tbl
+      match ep with
+      | "gen" =>
+        pure (if stream then line 200 ((genStream raw pl cs e).map (showItem showGen))
+              else showOnce showGen (genOnce raw pl cs e))
+      | "chat" =>
+        pure (if stream then line 200 ((chatStream parse tools cs e).map (showItem showChat))
+              else showOnce showChat (chatOnce parse tools cs e))
+      | "oachat" =>
+        pure (if stream then line 200 ((oaChatStream usage (chatStream parse tools cs e) false).map showOa)
+              else let ev := oaChatOnce (chatOnce parse tools cs e); line (oaStatus ev) [showOa ev])
+      | "oacmpl" =>
+        pure (if stream then line 200 ((oaCmplStream usage (genStream false pl cs e)).map showOa)
+              else let ev := oaCmplOnce (genOnce false pl cs e); line (oaStatus ev) [showOa ev])
+      | "cgen" =>
+        pure (showClient showGen (clientView (if stream then genStream raw pl cs e else onceAsItems (genOnce raw pl cs e))))
+      | "cchat" =>
+        pure (showClient showChat (clientView (if stream then chatStream parse tools cs e else onceAsItems (chatOnce parse tools cs e))))
+      | _ => failure) rest
   | _ => none
 
 end Oracle.C17
